@@ -399,7 +399,7 @@ def split_uri(uri):
     else:
         try:
             scheme, netloc, path, query, fragment = parse.urlsplit(uri)
-        except UnicodeError:
+        except ValueError:
             raise ParsingError("Bad URI")
 
     return (
